@@ -5,7 +5,8 @@ UxDataArray conversions add their data to a copy; the NaN filter is reduced over
 applied to arrays over that same derived space; polygons, face-index maps and data are filtered by the same index sequences per periodic_elements option; the antimeridian predicate is |dlon| >= 180 between
 consecutive vertices of the UNPROJECTED shells; both shell builds of a conversion receive the same longitude shift; shells are closed and padded before gathering.
 no any()/all() on an array of element indices (index 0 is not "none"); the GeoDataFrame path lets antimeridian.fix_polygon repair the winding.
-n_nodes_per_face (where the shells are closed) is stored without a narrowing cast."""
+n_nodes_per_face (where the shells are closed) is stored without a narrowing cast.
+no hand-written period wrap that handles one side only is applied to a sum/difference of angles, e.g. longitude minus central longitude (WRAP/one-sided-period, contradiction rule over the whole package)."""
 
 import ast
 
@@ -41,6 +42,8 @@ def check(run):
     _antimeridian(run, P)
     from ..rules import idxlint
     idxlint.check(run, P, ("uxarray/grid/", "uxarray/core/", "uxarray/subset/", "uxarray/cross_sections/", "uxarray/remap/", "uxarray/plot/", "uxarray/io/"))
+    from ..rules import wrap
+    wrap.check(run, P, ("uxarray/",))
     _winding(run, P)
     # shells are closed at column n_nodes_per_face[i]: the counts must not be stored in a narrow integer type
     from ..rules import dtype as _dtw
